@@ -152,9 +152,9 @@ Proof.
   unfold can_send_s, validate_amount_m, send_clauses, amount_ok, not_too_soon,
     not_too_far, aux_answers, bandwidth_ok, with_upd, ok_result, custom_skip, eff_bw.
   destruct (aux_ans e) eqn:Ea; destruct (custom_htlc e); destruct (upd_ok e);
-    zb; cbn [negb andb orb r_wire]; split; intros H; fin;
+    zb; cbn [negb andb orb r_wire]; split; intros HH; fin;
     try (repeat split; fin; fail);
-    try (exfalso; decompose [and or] H; fin; fail).
+    try (exfalso; decompose [and or] HH; fin; fail).
 Qed.
 
 Lemma can_send_s_names e amt t hg :
@@ -164,8 +164,229 @@ Proof.
   unfold can_send_s, validate_amount_m, names_violated_send, with_upd, ok_result,
     custom_skip, eff_bw.
   destruct (aux_ans e) eqn:Ea; destruct (custom_htlc e); destruct (upd_ok e);
-    zb; cbn [negb andb orb r_wire r_detail r_arg]; intros H; fin;
+    zb; cbn [negb andb orb r_wire r_detail r_arg]; intros HH; fin;
     try (repeat split; fin; fail);
     try (right; repeat split; fin; fail);
     try (left; reflexivity).
+Qed.
+
+Lemma fee_rejects_s_false e h :
+  fee_rejects_s e h = false <-> no_loss h /\ fee_covered e h.
+Proof.
+  unfold fee_rejects_s, no_loss, fee_covered.
+  zb; cbn [orb]; split; intros HH; fin.
+Qed.
+
+Lemma with_upd_not_ok e w d a : w <> WOk -> r_wire (with_upd e w d a) <> WOk.
+Proof. intros Hw. unfold with_upd. destruct (upd_ok e); cbn [r_wire]; congruence. Qed.
+
+Lemma forward_s_ok e h :
+  r_wire (check_forward_s e h) = WOk <-> forward_clauses e h.
+Proof.
+  unfold check_forward_s, forward_clauses.
+  destruct (fee_rejects_s e h) eqn:Ef.
+  - split; intros HH.
+    + exfalso. revert HH. apply with_upd_not_ok. discriminate.
+    + exfalso. destruct HH as (H1 & H2 & _).
+      assert (E : fee_rejects_s e h = false) by (apply fee_rejects_s_false; tauto).
+      congruence.
+  - apply fee_rejects_s_false in Ef. destruct Ef as [Hnl Hfc].
+    pose proof (can_send_s_ok e (out_amt h) (out_exp h) (height h)) as Hcs.
+    destruct (r_wire (can_send_s e (out_amt h) (out_exp h) (height h))) eqn:Ew;
+      try (split; intros HH;
+           [ first [ congruence
+                   | exfalso; pose proof (can_send_s_names e (out_amt h) (out_exp h) (height h)) as Hn;
+                     rewrite Ew in *; congruence ]
+           | destruct HH as (_ & _ & Hs & _); apply Hcs in Hs; discriminate ]; fail).
+    assert (Hs : send_clauses e (out_amt h) (out_exp h) (height h)) by (apply Hcs; reflexivity).
+    unfold delta_ok, delta_within_max, with_upd, ok_result.
+    destruct (upd_ok e); zb; cbn [r_wire]; split; intros HH; fin;
+      try (repeat split; fin; fail);
+      try (exfalso; decompose [and] HH; fin; fail).
+Qed.
+
+Lemma forward_s_names e h :
+  r_wire (check_forward_s e h) <> WOk ->
+  names_violated_forward e h (check_forward_s e h).
+Proof.
+  unfold check_forward_s.
+  destruct (fee_rejects_s e h) eqn:Ef.
+  - intros _. unfold with_upd, names_violated_forward.
+    assert (Hn : ~ (no_loss h /\ fee_covered e h)).
+    { intros HH. apply fee_rejects_s_false in HH. congruence. }
+    destruct (upd_ok e) eqn:Eu; cbn [r_wire r_detail r_arg].
+    + repeat split; fin.
+    + right. split; [reflexivity | left; exact Hn].
+  - pose proof (can_send_s_names e (out_amt h) (out_exp h) (height h)) as Hn.
+    destruct (r_wire (can_send_s e (out_amt h) (out_exp h) (height h))) eqn:Ew.
+    + clear Hn. unfold with_upd, ok_result, names_violated_forward, delta_ok, delta_within_max.
+      destruct (upd_ok e) eqn:Eu; zb; cbn [r_wire r_detail r_arg]; intros HH; fin;
+        try (repeat split; fin; fail);
+        try (right; split; [reflexivity | right; right; right; lia]; fail);
+        try (right; lia).
+    + intros _. specialize (Hn ltac:(discriminate)).
+      revert Hn Ew. generalize (can_send_s e (out_amt h) (out_exp h) (height h)).
+      intros [w d a]. unfold names_violated_forward, names_violated_send.
+      cbn [r_wire r_detail r_arg]. intros Hn Ew. subst w. destruct d; fin.
+    + intros _. specialize (Hn ltac:(discriminate)).
+      revert Hn Ew. generalize (can_send_s e (out_amt h) (out_exp h) (height h)).
+      intros [w d a]. unfold names_violated_forward, names_violated_send.
+      cbn [r_wire r_detail r_arg]. intros Hn Ew. subst w. destruct d; fin.
+    + intros _. specialize (Hn ltac:(discriminate)).
+      revert Hn Ew. generalize (can_send_s e (out_amt h) (out_exp h) (height h)).
+      intros [w d a]. unfold names_violated_forward, names_violated_send.
+      cbn [r_wire r_detail r_arg]. intros Hn Ew. subst w. destruct d; fin.
+    + intros _. specialize (Hn ltac:(discriminate)).
+      revert Hn Ew. generalize (can_send_s e (out_amt h) (out_exp h) (height h)).
+      intros [w d a]. unfold names_violated_forward, names_violated_send.
+      cbn [r_wire r_detail r_arg]. intros Hn Ew. subst w. destruct d; fin.
+    + intros _. specialize (Hn ltac:(discriminate)).
+      revert Hn Ew. generalize (can_send_s e (out_amt h) (out_exp h) (height h)).
+      intros [w d a]. unfold names_violated_forward, names_violated_send.
+      cbn [r_wire r_detail r_arg]. intros Hn Ew. subst w. destruct d; fin.
+    + intros _. specialize (Hn ltac:(discriminate)).
+      revert Hn Ew. generalize (can_send_s e (out_amt h) (out_exp h) (height h)).
+      intros [w d a]. unfold names_violated_forward, names_violated_send.
+      cbn [r_wire r_detail r_arg]. intros Hn Ew. subst w. destruct d; fin.
+    + intros _. specialize (Hn ltac:(discriminate)).
+      revert Hn Ew. generalize (can_send_s e (out_amt h) (out_exp h) (height h)).
+      intros [w d a]. unfold names_violated_forward, names_violated_send.
+      cbn [r_wire r_detail r_arg]. intros Hn Ew. subst w. destruct d; fin.
+Qed.
+
+Lemma can_send_s_ok_result e amt t hg :
+  r_wire (can_send_s e amt t hg) = WOk -> can_send_s e amt t hg = ok_result.
+Proof.
+  unfold can_send_s, validate_amount_m, with_upd, ok_result.
+  destruct (custom_skip e); destruct (aux_ans e); destruct (upd_ok e);
+    zb; cbn [negb andb orb r_wire]; intros HH; fin.
+Qed.
+
+Lemma forward_s_ok_result e h :
+  r_wire (check_forward_s e h) = WOk -> check_forward_s e h = ok_result.
+Proof.
+  unfold check_forward_s.
+  destruct (fee_rejects_s e h).
+  - intros HH. exfalso. revert HH. apply with_upd_not_ok. discriminate.
+  - destruct (r_wire (can_send_s e (out_amt h) (out_exp h) (height h))) eqn:Ew;
+      try (intros HH; congruence).
+    unfold with_upd, ok_result. destruct (upd_ok e); zb; cbn [r_wire]; intros HH; fin.
+Qed.
+
+(* ---------- property theorems (machine level, on D) ---------- *)
+
+Lemma sound e h :
+  D e h -> r_wire (check_forward_m e h) = WOk -> forward_clauses e h.
+Proof.
+  intros HD. destruct (machine_eq_spec e h HD) as [-> _]. apply forward_s_ok.
+Qed.
+
+Lemma complete e h :
+  D e h -> forward_clauses e h -> check_forward_m e h = ok_result.
+Proof.
+  intros HD HC. destruct (machine_eq_spec e h HD) as [-> _].
+  apply forward_s_ok_result. apply forward_s_ok. exact HC.
+Qed.
+
+Lemma failure_names_violated_rule e h :
+  D e h -> r_wire (check_forward_m e h) <> WOk ->
+  names_violated_forward e h (check_forward_m e h).
+Proof.
+  intros HD. destruct (machine_eq_spec e h HD) as [-> _]. apply forward_s_names.
+Qed.
+
+Lemma transit_sound_complete e h :
+  D e h ->
+  (r_wire (check_transit_m e h) = WOk <->
+   send_clauses e (out_amt h) (out_exp h) (height h)) /\
+  (r_wire (check_transit_m e h) = WOk -> check_transit_m e h = ok_result) /\
+  (r_wire (check_transit_m e h) <> WOk ->
+   names_violated_send e (out_amt h) (out_exp h) (height h) (check_transit_m e h)).
+Proof.
+  intros HD. destruct (machine_eq_spec e h HD) as [_ ->]. unfold check_transit_s.
+  split; [apply can_send_s_ok | split; [apply can_send_s_ok_result | apply can_send_s_names]].
+Qed.
+
+(* ---------- outside D the verdict flips (witnesses) ---------- *)
+
+Definition w_pol : policy := mkPolicy 1000 0 1000 1 40.
+Definition w_env : env := mkEnv w_pol 3 2016 989987184000 AuxNone false true.
+
+(* heightNow + OutgoingCltvRejectDelta wraps: an HTLC whose outgoing expiry
+   (100) is billions of blocks in the past is accepted. *)
+Definition w_accept : htlc := mkHtlc 2002 1000 140 100 0 0 4294967295.
+(* MaxOutgoingCltvExpiry + heightNow wraps: a forward satisfying every
+   clause is rejected as "expiry too far". *)
+Definition w_reject : htlc := mkHtlc 2002 1000 4294966346 4294966306 0 0 4294966296.
+
+Lemma wrap_refuted_outside :
+  (wf w_env w_accept /\ r_wire (check_forward_m w_env w_accept) = WOk /\
+   ~ forward_clauses w_env w_accept) /\
+  (wf w_env w_reject /\ forward_clauses w_env w_reject /\
+   check_forward_m w_env w_reject = mkRes WExpiryTooFar DNone 0).
+Proof.
+  split; split.
+  - constructor; cbn; unfold two31, two32, two64; lia.
+  - split; [vm_compute; reflexivity|].
+    intros (_ & _ & (_ & Hs & _) & _). unfold not_too_soon in Hs. cbn in Hs. lia.
+  - constructor; cbn; unfold two31, two32, two64; lia.
+  - split; [|vm_compute; reflexivity].
+    unfold forward_clauses, send_clauses, no_loss, fee_covered, amount_ok, not_too_soon,
+      not_too_far, aux_answers, bandwidth_ok, delta_ok, delta_within_max.
+    cbn. repeat split; try lia; try discriminate.
+    all: try (right; split; [lia | left; reflexivity]).
+    all: try (vm_compute; discriminate).
+Qed.
+
+(* int64 overflow of rate*amount in InboundFee.CalcFee: with a +1000 %
+   inbound fee (the clamp value) a 9.3 BTC forward is accepted with a zero
+   fee although the policy asks for 9.3 * 10^12 msat. *)
+Definition wf_pol : policy := mkPolicy 0 0 0 0 40.
+Definition wf_env : env := mkEnv wf_pol 3 2016 989987184000 AuxNone false true.
+Definition wf_htlc : htlc := mkHtlc 930000000000 930000000000 1140 1100 0 10000000 1000.
+
+Lemma fee_wrap_refuted_outside :
+  wf wf_env wf_htlc /\ r_wire (check_forward_m wf_env wf_htlc) = WOk /\
+  total_fee_s wf_env wf_htlc = 9300000000000 /\ ~ fee_covered wf_env wf_htlc.
+Proof.
+  split; [constructor; cbn; unfold two31, two32, two64; lia|].
+  split; [vm_compute; reflexivity|].
+  assert (E : total_fee_s wf_env wf_htlc = 9300000000000) by (vm_compute; reflexivity).
+  split; [exact E|]. unfold fee_covered. rewrite E. cbn. lia.
+Qed.
+
+(* ---------- link selection ---------- *)
+
+Lemma switch_picks_only_ok (link : Type) (eligible : link -> bool)
+  (check : link -> result) (pick : nat -> nat) (ls : list link) (l : link) :
+  choose link eligible check pick ls = Some l ->
+  In l ls /\ eligible l = true /\ r_wire (check l) = WOk.
+Proof.
+  unfold choose, destinations. intros HH. apply nth_error_In in HH.
+  apply filter_In in HH. destruct HH as [Hin Ha]. unfold admits in Ha.
+  apply andb_true_iff in Ha. destruct Ha as [He Hc].
+  repeat split; try assumption.
+  destruct (r_wire (check l)); try discriminate. reflexivity.
+Qed.
+
+Lemma switch_fails_iff_no_link_ok (link : Type) (eligible : link -> bool)
+  (check : link -> result) (ls : list link) :
+  destinations link eligible check ls = [] <->
+  forall l, In l ls -> eligible l = false \/ r_wire (check l) <> WOk.
+Proof.
+  unfold destinations. split.
+  - intros HH l Hin.
+    destruct (admits link eligible check l) eqn:Ea.
+    + assert (Hf : In l (filter (admits link eligible check) ls))
+        by (apply filter_In; split; assumption).
+      rewrite HH in Hf. destruct Hf.
+    + unfold admits in Ea. apply andb_false_iff in Ea. destruct Ea as [Ea | Ea].
+      * left. exact Ea.
+      * right. intros Hw. rewrite Hw in Ea. discriminate.
+  - intros HH. destruct (filter (admits link eligible check) ls) as [|x xs] eqn:Ef; [reflexivity|].
+    assert (Hx : In x (filter (admits link eligible check) ls)) by (rewrite Ef; left; reflexivity).
+    apply filter_In in Hx. destruct Hx as [Hin Ha]. unfold admits in Ha.
+    apply andb_true_iff in Ha. destruct Ha as [He Hc].
+    destruct (HH x Hin) as [Hn | Hn]; [congruence|].
+    destruct (r_wire (check x)); try discriminate. congruence.
 Qed.
